@@ -593,6 +593,12 @@ STATEMENTS = {
 	'group_partial_arith': 'whatever the engine matches for comp decomposes into unary-operand and operator matches covering exactly the consumed tokens, and Prec.parse with the level order comparison < additive < multiplicative reads that same abstract token list into the very expression the flat chains stand for (left-nested per level)',
 	'group_partial_bool': 'the same for comp_or: or < and over comp_not operands',
 	'group_levels_cpython': 'that level order is CPython\'s: or < and < comparisons < + - < * / % in Ladder.pyTable (the table C02 proves equal to CPython\'s grammar)',
+	'error_index_in_range': 'max(0, length-1-peek) indexes the token list for every peek as soon as there is a token: the cause token always exists (never index -1)',
+	'error_index_value': 'it is the token peek positions left of the last one while peek < length, and token 0 beyond that',
+	'keywords_exact': 'Rules.keywords holds exactly the expressions of all terminals of all rules, single-terminal rules included',
+	'keywords_excluded': 'a token whose string is a keyword never matches a regexp terminal, whatever the regexp says',
+	'reserved_words_py': 'the string terminals in py_rules().keywords are exactly the string terminals of py_gram.lark as read independently from the text; the identifier-shaped ones are the 17 listed reserved words',
+	'reserved_words_gram': 'gram_rules().keywords is the seven punctuation terminals followed by the five regexps of gram.lark (independent reading)',
 	'T3_yield': 'the named-terminal leaves of a successful match, in order, are exactly the consumed tokens that were matched by named terminal rules; the consumed tokens are exactly the span, in source order',
 	'T4_chain': 'a match of a ladder-shaped pattern (N op)* N yields the flat chain n_k o_k … o_1 n_0 in source order, each item a successful match of N resp. op laid end to end over the consumed span',
 	'T4_ladders_py': 'comp_or, comp_and, comp, calc_sum, calc_mul of the generated py table are exactly ladder rules (kernel-decided), chained level by level',
